@@ -51,6 +51,8 @@ impl std::fmt::Debug for RetrieveWrapper {
 /// Verification hook (feature `llg_verif`): re-exports of internal numeric helpers.
 #[cfg(feature = "llg_verif")]
 pub mod verif_exports {
-    pub use super::numeric::{check_number_bounds, rx_float_range, rx_int_range, Decimal};
+    pub use super::numeric::{
+        check_number_bounds, rx_float_range, rx_int_range, verif_lexi, Decimal,
+    };
     pub use super::schema::NumberSchema;
 }
